@@ -63,6 +63,12 @@ Actions(s) ==
      \cup (IF "RemoveAttr" \in Ops THEN {[A0 EXCEPT !.op = "RemoveAttr", !.p = p, !.an = an] : p \in N, an \in {av[1] : av \in AttrValues}} ELSE {})
      \cup (IF "Load" \in Ops THEN {[A0 EXCEPT !.op = "Load", !.m = 1, !.k = d, !.name = d] : d \in DocNames}
                                    \cup {[A0 EXCEPT !.op = "Load", !.m = 1, !.k = d, !.name = d, !.ver = "lenient"] : d \in DocNames \cap {"pv", "pe"}} ELSE {})
+     \* a text item is inserted only where it does not touch another text item (two adjacent text runs are one run in the written file)
+     \cup (IF "InsertText" \in Ops THEN UNION {{[A0 EXCEPT !.op = "InsertText", !.p = p, !.pos = ps, !.name = "ins"] :
+                                                   ps \in {q \in 0..Len(Cont(s, p)) : (q = 0 \/ Cont(s, p)[q].t = "e") /\ (q = Len(Cont(s, p)) \/ Cont(s, p)[q + 1].t = "e")} \cup {Len(Cont(s, p)) + 1}} :
+                                                 p \in {x \in N : Wild \/ KMode(Kind(s, x)) = "Mixed"}} ELSE {})
+     \cup (IF "RemoveTextItem" \in Ops THEN UNION {{[A0 EXCEPT !.op = "RemoveTextItem", !.p = p, !.pos = ps] : ps \in 0..Len(Cont(s, p))} :
+                                                     p \in {x \in N : Wild \/ KMode(Kind(s, x)) = "Mixed"}} ELSE {})
      \cup (IF "SetComment" \in Ops THEN {[A0 EXCEPT !.op = "SetComment", !.p = p, !.name = cm] : p \in N, cm \in {"", "c--d"}} ELSE {})
 
 Red(s) == [n |-> s.n, f |-> s.f,
